@@ -1598,6 +1598,28 @@ pub fn corpus() -> Vec<Prog> {
         ))),
         Line::Cmd(l1(Cmd::Case(Word::Var(0), vec![(vec![Pat::Star], l1(probe(8, 0)), Cont::Break)]))),
     ]);
+    // for: the variable is assigned anew in EVERY iteration, also when the next
+    // word equals the previous one and the body changed the variable meanwhile
+    for words in [vec![0u32, 0], vec![1, 1, 1], vec![0, 1, 1, 0]] {
+        v.push(vec![
+            Line::Cmd(l1(Cmd::For(
+                2,
+                words.iter().map(|w| Word::Lit(*w)).collect(),
+                seq(vec![
+                    Cmd::Case(
+                        Word::Var(2),
+                        vec![
+                            (vec![Pat::Lit(0)], l1(probe(1, 3)), Cont::Break),
+                            (vec![Pat::Lit(1)], l1(probe(2, 4)), Cont::Break),
+                            (vec![Pat::Star], l1(probe(3, 9)), Cont::Break),
+                        ],
+                    ),
+                    Cmd::Assign(2, Word::Lit(3)),
+                ]),
+            ))),
+            Line::Cmd(l1(Cmd::Case(Word::Var(2), vec![(vec![Pat::Lit(3)], l1(probe(4, 0)), Cont::Break), (vec![Pat::Star], l1(probe(5, 1)), Cont::Break)]))),
+        ]);
+    }
     // asynchronous lists: `$?` is 0 after `&`, errexit does not apply to the list,
     // `wait $!` gives the status of the body once, then 127; `wait` gives 0
     v.push(vec![
